@@ -34,3 +34,27 @@ Qed.
 
 Example C05_pso_draws : cminl KDraw prog_PSO = (0, 0, 0, 2).     (* 2 draws per agent per iteration *)
 Proof. vm_compute. reflexivity. Qed.
+
+(* ------------------------------------------------------------------ histories of tasks
+   A whole history of tasks on one space (Analysis/Tasks.v) is a function of the start state and of the tasks -- programs,
+   objectives, hooks, iteration counts and draw streams -- and of nothing else: two histories with equal tasks from equal
+   start states have equal records (start state, event trace, end state of every task) and equal final states; and every
+   task of every history consumes at least its lower bound of draws. *)
+From OV Require Import Analysis.Tasks.
+
+Theorem C05_history_depends_only_on_tasks_and_streams :
+  forall lbs ubs okc ts x0 rs1 x1 rs2 x2,
+    thist lbs ubs okc ts x0 rs1 x1 -> thist lbs ubs okc ts x0 rs2 x2 -> rs1 = rs2 /\ x1 = x2.
+Proof. intros lbs ubs okc ts x0 rs1 x1 rs2 x2. apply thist_functional. Qed.
+
+Theorem C05_task_histories_consume_the_stream :
+  forall lbs ubs okc ts x0 rs x', Forall (fun t => forall x, length (pop (thk t x)) = length (pop x)) ts ->
+    thist lbs ubs okc ts x0 rs x' ->
+    Forall2 (fun t r => pv (cminl KDraw (tp t)) (length (pop (fst (fst r)))) (tn t) <= cnt KDraw (snd (fst r))) ts rs.
+Proof.
+  intros lbs ubs okc ts x0 rs x' HQ Ht.
+  eapply (thist_lift lbs ubs okc _ (fun t r => pv (cminl KDraw (tp t)) (length (pop (fst (fst r)))) (tn t) <= cnt KDraw (snd (fst r))));
+    [|exact HQ|exact Ht].
+  intros t xs x1 evs o1 Hl Hr. simpl.
+  exact (C05_draws_lower_bound (tp t) lbs ubs (tf t) (thk t) (tn t) okc Hl (tor t) xs x1 evs o1 Hr).
+Qed.
